@@ -663,3 +663,40 @@ M("C15.digits_accepts_sign", ["C15"], "core/src/timestamp.rs",
 M("C15.hex_table_off_by_one", ["C15"], "src/span.rs",
   "            b'A'..=b'F' => i - b'A' + 10,\n            _ => 0xff,\n        };\n\n        if i == 255 {\n            break buf;\n        }\n\n        i += 1\n    }\n};\n\nconst SHL4_TABLE",
   "            b'A'..=b'F' => i - b'A' + 11,\n            _ => 0xff,\n        };\n\n        if i == 255 {\n            break buf;\n        }\n\n        i += 1\n    }\n};\n\nconst SHL4_TABLE", "C15.R2:hex-tables")
+
+# ---- C16 -------------------------------------------------------------------------------------------
+M("C16.eq_str_slicing(reverse of fix c2f24e9)", ["C16"], "core/src/template.rs",
+  """                    let a = a.get().as_bytes();
+                    let b = b.get().as_bytes();""",
+  """                    let a = a.get();
+                    let b = b.get();""", "C16.R1")
+M("C16.write_arms_swapped", ["C16"], "core/src/template.rs",
+  """                    if let Some(formatter) = formatter {
+                        writer.write_hole_fmt(label, value, formatter.clone())
+                    } else {
+                        writer.write_hole_value(label, value)
+                    }
+                } else {
+                    writer.write_hole_label(label)
+                }""",
+  """                    if let Some(formatter) = formatter {
+                        writer.write_hole_fmt(label, value, formatter.clone())
+                    } else {
+                        let _ = value;
+                        writer.write_hole_label(label)
+                    }
+                } else {
+                    writer.write_hole_value(label, Value::null())
+                }""", "C16.R2")
+M("C16.by_ref_drops_formatter", ["C16"], "core/src/template.rs",
+  """            } => Part(PartKind::Hole {
+                label: label.by_ref(),
+                formatter: formatter.clone(),
+            }),""",
+  """            } => { let _ = formatter; Part(PartKind::Hole {
+                label: label.by_ref(),
+                formatter: None,
+            }) }""", "C16.R4")
+M("C16.render_ignores_error", ["C16"], "core/src/template.rs", None, None, "x") if False else None
+M("C16.render_ignores_error", ["C16"], "core/src/template.rs",
+  "            part.write(&mut writer, &self.props)?;", "            let _ = part.write(&mut writer, &self.props);", "C16.R2:Render")
